@@ -13,6 +13,7 @@ var verifHarnesses = map[string]func(){
 	"VerifC10Mixed":                 VerifC10Mixed,
 	"VerifC11Abort":                 VerifC11Abort,
 	"VerifC11CancelAnywhere":        VerifC11CancelAnywhere,
+	"VerifC11Saturated":             VerifC11Saturated,
 	"VerifC03Forged":                VerifC03Forged,
 	"VerifC04Tampered":              VerifC04Tampered,
 	"VerifC18CloseBlockedLoad":      VerifC18CloseBlockedLoad,
